@@ -663,6 +663,22 @@ class Gen:
         h("rmain", [], STRING, None, 'pub fn rmain() {\n  let rres = remit([1], "s", 3)\n  rres\n}',
           lambda i: f"(blk (let (pv {rr}) (call (fr remit) (_ (l (i))) (_ s) (_ i))) (x (v {rr})))")
         self.feat("generic-recursion-group-of-three")
+        # two generic functions calling each other with swapped arguments: three independent type variables in one group
+        h("rfa", [("ra1", a), ("ra2", b)], c, None, "pub fn rfa(ra1, ra2) {\n  rfb(ra2, ra1)\n}", lambda i: f"(call (fr rfb) (_ (v {i[1]})) (_ (v {i[0]})))")
+        h("rfb", [("rb1", b), ("rb2", a)], c, None, "pub fn rfb(rb1, rb2) {\n  rfa(rb2, rb1)\n}", lambda i: f"(call (fr rfa) (_ (v {i[1]})) (_ (v {i[0]})))")
+        # partially annotated generic function: a compound annotation, a named type variable, then unannotated parameters
+        self.nid += 1
+        tp = self.nid
+        self.binders.append((tp, "tpair", "m1", T(a, c), False))
+        self.nid += 1
+        tres = self.nid
+        self.binders.append((tres, "tres", "m1", T(STRING, FLOAT), False))
+        h("tag", [("tl", L(INT)), ("ta", a), ("tb", b), ("tc", c)], T(a, c), None,
+          "pub fn tag(tl: List(Int), ta: a, tb, tc) {\n  let tpair = #(ta, tc)\n  tpair\n}",
+          lambda i: f"(blk (let (pv {tp}) (t (v {i[1]}) (v {i[3]}))) (x (v {tp})))")
+        h("use_tag", [], T(STRING, FLOAT), None, 'pub fn use_tag() {\n  let tres = tag([1], "s", 2, 1.5)\n  tres\n}',
+          lambda i: f"(blk (let (pv {tres}) (call (fr tag) (_ (l (i))) (_ s) (_ i) (_ f))) (x (v {tres})))")
+        self.feat("partially-annotated-generic")
         return hs
 
     FORCE = {"int": ("{} + 0", "(op ia (v {}) i)"), "float": ("{} +. 0.0", "(op fa (v {}) f)"), "string": ('{} <> ""', "(op cc (v {}) s)")}
